@@ -24,7 +24,8 @@ var out *bufio.Writer
 var outFile *os.File
 
 var curCase atomic.Int64
-var caseStartCPU atomic.Int64 // microseconds of process CPU at case start
+var caseStartCPU atomic.Int64  // microseconds of process CPU at the start of the current library call
+var caseStartWall atomic.Int64 // unix nanoseconds at the start of the current library call
 
 func cpuMicros() int64 {
 	var ru syscall.Rusage
@@ -59,6 +60,8 @@ func envInt(name string, def int64) int64 {
 func watchdog() {
 	cpuLimit := envInt("VW_CPU_LIMIT_S", 30) * 1e6
 	rssLimit := envInt("VW_RSS_LIMIT_MB", 1536) << 20
+	blockedWall := envInt("VW_BLOCKED_WALL_S", 40) * 1e9
+	blockedCPU := envInt("VW_BLOCKED_CPU_MS", 1500) * 1e3
 	for {
 		time.Sleep(100 * time.Millisecond)
 		id := curCase.Load()
@@ -66,10 +69,16 @@ func watchdog() {
 			continue
 		}
 		kind := ""
-		if cpuMicros()-caseStartCPU.Load() > cpuLimit {
+		cpuUsed := cpuMicros() - caseStartCPU.Load()
+		wallUsed := time.Now().UnixNano() - caseStartWall.Load()
+		if cpuUsed > cpuLimit {
 			kind = "cpu"
 		} else if rssBytes() > rssLimit {
 			kind = "heap"
+		} else if wallUsed > blockedWall && cpuUsed < blockedCPU {
+			// a call that has been "running" for a long time while the process used next to no CPU is
+			// not slow, it is blocked (a lock that is never released, a read that never returns)
+			kind = "blocked"
 		}
 		if kind != "" {
 			// The main goroutine may be spinning; write through a fresh descriptor position.
@@ -120,6 +129,7 @@ func main() {
 		fmt.Fprintf(out, "B %d\n", c.ID)
 		out.Flush()
 		caseStartCPU.Store(cpuMicros())
+		caseStartWall.Store(time.Now().UnixNano())
 		curCase.Store(int64(c.ID))
 		res := execCase(&c)
 		curCase.Store(-1)
